@@ -11,47 +11,9 @@ package hsrv
 import (
 	"net/http"
 	"net/url"
-	"os"
 
 	"github.com/magisterquis/curlrevshell/lib/opshell"
 )
-
-//verif:stub net.SplitHostPort stubSplitHostPort
-//verif:stub (*net/url.URL).String stubURLString
-//verif:stub os.Open stubOsOpenFail
-//verif:stub net/http.Error stubHTTPError
-
-type stubErr struct{ s string }
-
-func (e *stubErr) Error() string { return e.s }
-
-// stubSplitHostPort: faithful for addresses without brackets: the last colon separates host and port.
-func stubSplitHostPort(hostport string) (string, string, error) {
-	for i := len(hostport) - 1; i >= 0; i-- {
-		if hostport[i] == ':' {
-			return hostport[:i], hostport[i+1:], nil
-		}
-	}
-	return "", "", &stubErr{"missing port in address"}
-}
-
-// stubURLString: what (*url.URL).String yields for a URL with a plain path and a raw query.
-func stubURLString(u *url.URL) string {
-	if u.RawQuery == "" {
-		return u.Path
-	}
-	return u.Path + "?" + u.RawQuery
-}
-
-func stubOsOpenFail(name string) (*os.File, error) { return nil, &stubErr{"open failed"} }
-
-func stubHTTPError(w http.ResponseWriter, e string, code int) {}
-
-type nullRW struct{ h http.Header }
-
-func (n *nullRW) Header() http.Header         { return n.h }
-func (n *nullRW) Write(b []byte) (int, error) { return len(b), nil }
-func (n *nullRW) WriteHeader(int)             {}
 
 func noSpecial(s string) {
 	for i := 0; i < len(s); i++ {
